@@ -7,7 +7,6 @@ import Cvss.Gen.V40
 import Cvss.Model.Obj
 import Cvss.Model.Parse
 import Cvss.Model.WF
-import Cvss.Model.SrcTie
 import Cvss.Spec.Metrics
 import Cvss.Spec.Grammar
 import Cvss.Proofs.Contract
